@@ -11,6 +11,7 @@ import binascii
 
 from .. import families as F
 from ..util import data, pick_size
+from ..engine import Violation
 
 # ---------------------------------------------------------------------------
 # transition tables: state -> {op: next}; a leading '~' marks an "either" cell
@@ -83,6 +84,9 @@ def strip_ccm(cfg):
     return c
 
 
+BADARG_AEAD = ("GCM", "CCM", "EAX", "ChaCha20-Poly1305", "XChaCha20-Poly1305")
+
+
 class Machine(object):
     PROPERTY = "C10"
     LEVEL = "exploration"
@@ -133,10 +137,20 @@ class Machine(object):
             # now perturb with random (often forbidden) calls
             for _ in range(rng.randrange(0, 5)):
                 ops.insert(rng.randrange(0, len(ops) + 1), self._aead_op(rng, fam, None))
+            if rng.random() < 0.12:
+                ops.insert(rng.randrange(0, len(ops) + 1), self._aead_badarg(rng, direction))
             return {"group": "aead", "config": cfg, "ops": ops[:14]}
         for _ in range(nops):
             ops.append(self._aead_op(rng, fam, direction))
+            if fam in BADARG_AEAD and rng.random() < 0.05:
+                ops.append(self._aead_badarg(rng, direction))
         return {"group": "aead", "config": cfg, "ops": ops}
+
+    def _aead_badarg(self, rng, direction):
+        # a call the object refuses for its *argument* (text instead of bytes, an output buffer of the wrong size or
+        # read-only) in the middle of a history: the model does not move
+        meth = rng.choice(["update", {"E": "encrypt", "D": "decrypt"}[direction], {"E": "encrypt", "D": "decrypt"}[direction]])
+        return ["badarg", meth, self._dd(rng, cap=70), 0 if meth == "update" else rng.randrange(4)]
 
     def _aead_op(self, rng, fam, direction):
         """Biased towards a sensible flow in ``direction`` but with ~1/3 of
@@ -231,7 +245,18 @@ class Machine(object):
         self._after_badarg = False
         try:
             if g == "aead":
-                self.run_aead(case, ctx)
+                try:
+                    self.run_aead(case, ctx)
+                except Violation as v:
+                    if self._after_badarg:
+                        # one key per (family, refused method, kind of divergence): the state the history was in does not
+                        # identify the defect, the refused call does
+                        v.key = "lifecycle/%s/after-refused-%s/%s" % (case["config"]["fam"], self._after_badarg, v.key.rsplit("/", 1)[-1])
+                        if case["config"]["fam"] == "CCM":
+                            # CCM validates nothing before it moves (known finding, DESIGN section 7): one key per refused method
+                            v.key = "lifecycle/CCM/after-refused-%s" % self._after_badarg.split("(")[0]
+                        v.msg = "after a call refused for its argument (%s): %s" % (self._after_badarg, v.msg)
+                    raise
             elif g == "classic":
                 self.run_classic(case, ctx)
             else:
@@ -325,6 +350,28 @@ class Machine(object):
             name = op[0]
             base = {"hexdigest": "digest", "hexverify": "verify"}.get(name, name)
             ctx.step()
+            if name == "badarg":
+                if fam not in BADARG_AEAD:
+                    continue
+                piece = F.D(op[2])
+                meth = getattr(obj, op[1])
+                ctx.state((fam, st, "badarg:" + op[1], op[3]))
+                try:
+                    if op[3] == 0:
+                        meth(u"text")
+                    elif op[3] == 1:
+                        meth(piece, output=bytearray(len(piece) + 1))
+                    elif op[3] == 2:
+                        meth(piece, output=bytes(len(piece)))
+                    else:
+                        meth(piece, output=bytearray(max(0, len(piece) - 1)) if piece else bytearray(2))
+                except Exception:
+                    # refused (for the argument, or for the state if the call was forbidden there anyway): from here on the
+                    # object may stop working, but whatever it still returns must be what the accepted calls alone define
+                    ctx.fault("call.bad_argument")
+                    self._after_badarg = self._after_badarg or "%s(%s)" % (op[1], ["text", "output-too-long", "output-read-only", "output-too-short"][op[3]])
+                    continue
+                raise Stop()
             ctx.state((fam, st, base, a_decl is not None, m_decl is not None))
             cell = table[st].get(base)
             forbidden = cell is None
